@@ -24,6 +24,7 @@ splice contract clauses into them at a small number of fixed insertion points:
   //@ proof-start { ... }                 proof block as first statement of the function body
   //@ proof-before /regex/ { ... }        proof block before the single body line matching regex
   //@ proof-after /regex/ { ... }         proof block after the single body line matching regex
+  //@ ghost-before /regex/ let ghost x = e;   ghost snapshot statement (only `let ghost|tracked ..;` is accepted)
   //@ closure <n> ret <ident>: <Type>     n-th closure of the body gets a named return (N8)
   //@ closure <n> ensures[TAGS] <expr>
   //@ instantiate I=<type>                normalisation N5 (see DESIGN §4)
@@ -43,6 +44,8 @@ Normalisations applied to extracted text (each application is counted and report
   N8  closure `|p| EXPR` -> `|p| -> (r: T) ensures .. { EXPR }` (closure contract; body tokens unchanged)
   D1  `log::<level>!(...)` statements dropped
   D2  `///` doc comment lines dropped
+  D3  named derives dropped from an item (drop-derive=..; e.g. Debug on types with stand-in fields)
+  D4  named attributes dropped from an item (strip-attr=..; e.g. thiserror's #[error("..")])
 The statement tokens of everything else are unchanged.
 
 Output: the assembled file, plus a line map  assembled line -> origin
@@ -537,6 +540,12 @@ def parse_template(path):
             cur.proofs.append(last)
             i += 1
             continue
+        mm = re.match(r"(ghost-before|ghost-after)\s+/((?:[^/\\]|\\.)*)/\s+(let (?:ghost|tracked) .*;)$", body, re.S)
+        if mm:
+            last = [mm.group(1), [], mm.group(3), i + 1, mm.group(2)]
+            cur.proofs.append(last)
+            i += 1
+            continue
         mm = re.match(r"(proof-before|proof-after)(?:\[([^\]]*)\])?\s+/((?:[^/\\]|\\.)*)/\s+(.*)$", body, re.S)
         if mm:
             last = [mm.group(1), parse_tags(mm.group(2)), mm.group(4), i + 1, mm.group(3)]
@@ -795,10 +804,11 @@ def assemble_fn(spec, bundle, out, canary=False):
         if len(hits) != 1:
             raise ExtractError("%s: anchor /%s/ matches %d lines" % (where, rx, len(hits)))
         a, b = hits[0]
-        if kind == "proof-before":
-            ins(a, "proof " + text, ("clause", cid))
+        pre = "" if kind.startswith("ghost") else "proof "
+        if kind.endswith("-before"):
+            ins(a, pre + text, ("clause", cid))
         else:
-            ins(b + 1, "proof " + text, ("clause", cid))
+            ins(b + 1, pre + text, ("clause", cid))
     # ---- N2 hoist
     hoisted = []
     for m in re.finditer(r"(?m)^[ \t]*(static|const)\s+([A-Z_][A-Z0-9_]*)\s*:\s*([^=;]+?)\s*=\s*([^;]+);[ \t]*$", mask[body_open:body_close]):
@@ -1008,7 +1018,8 @@ def assemble_region(spec, bundle, out, sf, it, canary):
         if len(hits) != 1:
             raise ExtractError("%s: anchor /%s/ matches %d lines" % (where, rx, len(hits)))
         a, b = hits[0]
-        inserts.setdefault(a if kind == "proof-before" else b + 1, []).append(("proof " + text, ("clause", cid)))
+        pre = "" if kind.startswith("ghost") else "proof "
+        inserts.setdefault(a if kind.endswith("-before") else b + 1, []).append((pre + text, ("clause", cid)))
     emit_range(sf, out, a0, b1, inserts, replaces, where)
     tail = spec.opts.get("tail")
     if tail:
@@ -1042,6 +1053,13 @@ def assemble_item(node, out):
                     out.count("D3", "%s: derive(%s) dropped" % (where, d))
             new = "#[derive(%s)]" % ", ".join(keep) if keep else ""
             replaces.append((it.start + m.start(), it.start + m.end(), new))
+    if "strip-attr" in opts:
+        for an in opts["strip-attr"].split(","):
+            for m in re.finditer(r"#\[%s\b" % re.escape(an), mask):
+                b = mask.index("[", m.start())
+                e = match_close(mask, b) + 1
+                replaces.append((it.start + m.start(), it.start + e, ""))
+                out.count("D4", "%s: attribute #[%s(..)] dropped" % (where, an))
     if kind == "const":
         # N1
         m = re.search(r":\s*&\s*str\b", mask)
